@@ -6,6 +6,7 @@ import Dnp3.Driver.Parse
 import Dnp3.Driver.Ffi
 import Dnp3.Driver.Db
 import Dnp3.Driver.Master
+import Dnp3.Driver.Pair
 open Dnp3 Dnp3.Driver
 
 partial def loop {σ : Type} (h : IO.FS.Stream) (out : IO.FS.Stream) (step : σ → String → σ × List String) (s : σ) : IO Unit := do
@@ -31,5 +32,6 @@ def main (args : List String) : IO UInt32 := do
   | ["master"] => loop stdin stdout masterStep {}; return 0
   | ["parse"] => loop stdin stdout parseStep (); return 0
   | ["ffi"] => loop stdin stdout ffiStep (); return 0
+  | ["pair"] => loop stdin stdout pairStep {}; return 0
   | ["db"] => loop stdin stdout Dnp3.Driver.DbEngine.dbStep ({} : Dnp3.Driver.DbEngine.DbState); return 0
   | _ => IO.eprintln "usage: dnp3model <engine>"; return 2
